@@ -600,3 +600,15 @@ Theorem c12_code_decoder_err : forall d src dst e,
 Proof. exact gen_parse_input_err. Qed.
 Print Assumptions c12_code_decoder_no_panic.
 Print Assumptions c12_code_decoder_err.
+
+(** The same for the whole translated [BodyReader::read] (all four framings, outer chunked loop included): from every
+    between-calls reader, on any bytes and any output buffer, the code never panics. *)
+From Hoot.proofs Require Import Gen2_equiv_body Gen2_equiv_reader_chunked Gen2_transport.
+Theorem c12_code_read_no_panic : forall r src dst stop s,
+  reader_ok r -> limit_fits r src dst -> gen_br_read r src dst stop <> Panic s.
+Proof.
+  intros r src dst stop s Hok Hf Hg.
+  destruct (gen_read_panic_only_if_model r src dst stop s Hf Hg) as [s' Hm].
+  pose proof (c12_read r src (len dst) stop Hok) as H. rewrite Hm in H. exact H.
+Qed.
+Print Assumptions c12_code_read_no_panic.
